@@ -96,13 +96,13 @@ Proof.
 Qed.
 
 (* win_refine at an interior unique maximum *)
-Lemma win_refine_interior W loc r c :
+Lemma win_refine_interior g W loc r c :
   uniq_max W W loc r c -> 1 <= r -> r + 1 < W -> 1 <= c -> c + 1 < W ->
-  exists dx dy, win_refine W loc = Some ((r, c), (dx, dy)) /\
+  exists dx dy, win_refine g W loc = Some ((r, c), (dx, dy)) /\
     parab (loc (r - 1) c) (loc r c) (loc (r + 1) c) = Some dx /\
     parab (loc r (c - 1)) (loc r c) (loc r (c + 1)) = Some dy.
 Proof.
-  intros Hu H1 H2 H3 H4. destruct (win_refine_val Hu) as (dx & dy & R & _ & Ne).
+  intros Hu H1 H2 H3 H4. destruct (win_refine_val g Hu) as (dx & dy & R & _ & Ne).
   exists dx, dy. split; [exact R|]. apply Ne.
   destruct (Nat.eqb_spec r 0); [lia|]. destruct (Nat.leb_spec W (r + 1)); [lia|].
   destruct (Nat.eqb_spec c 0); [lia|]. destruct (Nat.leb_spec W (c + 1)); [lia|]. reflexivity.
@@ -137,8 +137,8 @@ Proof.
   exists (t_round up h1), (t_round up h2), (t_round up h1'), (t_round up h2'), e1, e2.
   split; [exact E1|]. split; [exact E2|]. split; [exact Ev1|]. split; [exact Ev2|].
   intros r c r' c' W loc loc' Hl Hl' Rr Rc I1 I2 I3 I4 I1' I2' I3' I4' X0 Xc X2 Y0 Y2.
-  destruct (win_refine_interior Hl I1 I2 I3 I4) as (dx & dy & R1 & Px & Py).
-  destruct (win_refine_interior Hl' I1' I2' I3' I4') as (dx' & dy' & R1' & Px' & Py').
+  destruct (win_refine_interior false Hl I1 I2 I3 I4) as (dx & dy & R1 & Px & Py).
+  destruct (win_refine_interior false Hl' I1' I2' I3' I4') as (dx' & dy' & R1' & Px' & Py').
   destruct (@parab_reverse _ _ _ _ Px) as (rx & Rx & Erx). destruct (@parab_reverse _ _ _ _ Py) as (ry & Ry & Ery).
   destruct (@parab_comp _ _ _ _ _ _ _ X0 Xc X2 Px') as (cx & Cx & Ecx).
   destruct (@parab_comp _ _ _ _ _ _ _ Y0 Xc Y2 Py') as (cy & Cy & Ecy).
@@ -177,7 +177,7 @@ Proof.
   rewrite (Z1 Ev1) in E1. rewrite (Z2 Ev2) in E2.
   pose proof (negc_e0 U0 E1) as Nx. pose proof (negc_e0 U0 E2) as Ny.
   destruct (Hum (t_center up (t_round up h1)) (t_center up (t_round up h2))) as (lx & ly & Hul).
-  destruct (win_refine_swap Hul (Hsw _ _ _ _ Nx Ny)) as (dx & dy & dx' & dy' & R1 & R1' & Ex & Ey).
+  destruct (win_refine_swap false Hul (Hsw _ _ _ _ Nx Ny)) as (dx & dy & dx' & dy' & R1 & R1' & Ex & Ey).
   unfold torch_shift, torch_align. rewrite TH, TH'.
   destruct (Nat.leb_spec up 2) as [C|_]; [lia|].
   rewrite R1, R1'. destruct Hul as (Hlx & Hly & _).
